@@ -34,10 +34,10 @@ def dispatchMarkdown : Sexp → Option Sexp
     match mdDocOfSexp? d, Num.ofSexp? k with
     | some d, some k => some (Sexp.ofStr (renderDoc d k))
     | _, _ => some (Sexp.tag "bad-request" [Sexp.atom "args"])
-  | .list [.atom "heading", first, level, text] =>
-    match first.asBool?, level.asNat?, text.asStr? with
-    | some f, some l, some t => some (headingInfo f l t).toSexp
-    | _, _, _ => some (Sexp.tag "bad-request" [Sexp.atom "args"])
+  | .list [.atom "heading", first, level, text, phs] =>
+    match first.asBool?, level.asNat?, text.asStr?, Sexp.asList? Sexp.asStr? phs with
+    | some f, some l, some t, some phs => some (headingInfo f l t phs).toSexp
+    | _, _, _, _ => some (Sexp.tag "bad-request" [Sexp.atom "args"])
   | .list [.atom "group", ks] =>
     match Sexp.asList? kindOfSexp? ks with
     | some ks => some (Sexp.ofList (Sexp.ofList Sexp.ofNat) (groupBlocks ks))
